@@ -132,7 +132,9 @@ def reference(keyrepr, tbl, mode, vr, hashseed):
         if k in _REF:
             return _REF[k]
     t, b, lg = tbl
-    raw = apirec.run_fresh([["new", 1, E(t), E(b), lg], ["fix", 1, mode, vr, False, False]], hashseed=hashseed)
+    # (the second reference interpreter differs in more than the hash seed: it runs with -O, i.e. without assert statements)
+    raw = apirec.run_fresh([["new", 1, E(t), E(b), lg], ["fix", 1, mode, vr, False, False]], hashseed=hashseed,
+                           pyflags=("-O",) if str(hashseed) == "1" else ())
     with _REF_LOCK:
         _REF[k] = raw
     return raw
